@@ -415,7 +415,7 @@ def write_replay(prop, payload):
 
 
 # --------------------------------------------------------------------------- threaded Exec (C18)
-def exec_threaded(binp, case_lines, workdir, nthreads, timeout=900, env=None):
+def exec_threaded(binp, case_lines, workdir, nthreads, timeout=900, env=None, lockstep=False):
     """vh --threads N: returns (seq_events, [per-thread events], quiescent, rc, stderr)."""
     ensure(workdir)
     inp = os.path.join(workdir, "cases.ndjson")
@@ -426,9 +426,9 @@ def exec_threaded(binp, case_lines, workdir, nthreads, timeout=900, env=None):
         os.remove(p)
     e = dict(os.environ)
     e.update(env or {})
-    e.setdefault("TSAN_OPTIONS", "exitcode=66:halt_on_error=0:second_deadlock_stack=1")
+    e.setdefault("TSAN_OPTIONS", "exitcode=66:halt_on_error=0:second_deadlock_stack=1:history_size=7")
     try:
-        p = subprocess.run([binp, "--threads", str(nthreads), inp, pre], stdout=subprocess.PIPE, stderr=subprocess.PIPE, timeout=timeout, env=e)
+        p = subprocess.run([binp, "--threads", str(nthreads), inp, pre] + (["lockstep"] if lockstep else []), stdout=subprocess.PIPE, stderr=subprocess.PIPE, timeout=timeout, env=e)
         rc, err = p.returncode, p.stderr.decode(errors="replace")
     except subprocess.TimeoutExpired:
         rc, err = -9, "timeout"
